@@ -1,5 +1,399 @@
-/- Driver for C02 (stub until the property's model is written). -/
+/- Driver for C02.  Reads the traces of `harness/c02_queuesys.c` (real qmail-queue ×3, qmail-send ×2, qmail-clean under qsim,
+   schedule decision before every queue-directory call).  Two channels:
+   * DISAGREE: each trace is abstracted to `QueueSys.Ev` and replayed through `QueueSys.accept`; the directory contents reconstructed
+     from the calls are compared with qsim's dump.
+   * ORACLE: the predicates of Props/C02 evaluated on the concrete directory contents after every mutating call, independently of
+     the model's control state: documented state (C02_states), documented move (C02_moves), name = inode and split directory
+     (C02_inode), number taken only from S1 (C02_unique_link), removal order of bounce/info (C02_order_*), stale collection only
+     after 36 h with no info/todo and no running owner (C02_stale), no queue change by a qmail-send that does not hold the lock
+     (C02_mutex). -/
 import Drv.Util
-open Drv
-def handle (st : Stats) (_line : String) : IO Stats := return { st with cases := st.cases + 1 }
-def main : IO Unit := runDriver handle
+import Nq.QueueSys
+
+open Nq Nq.QueueSys Drv
+
+structure Ent where
+  kind : File
+  n : Nat
+  path : String
+  ino : Nat
+
+structure Case where
+  hdr : String := ""
+  st : Option St := some {}
+  nev : Nat := 0
+  ents : List Ent := []
+  pids : List (String × Nat) := []        -- pid/ path → inode
+  atime : List (Nat × Nat) := []           -- inode → clock at creation
+  clock : Nat := 0
+  elim : List Nat := []                    -- info/n removed by qmail-send (elimination under way)
+  owners : List (Nat × Nat) := []          -- injector index → number it linked
+  live : List Nat := []                    -- injector indices still running
+  lock : Option Nat := none                -- process holding lock/sendmutex
+  inc : Nat := 0
+  p5daemon : Bool := false
+  dump : List (String × Nat) := []
+  dumpPending : Bool := true
+  oracleHit : Bool := false
+
+structure D where
+  st : Stats := {}
+  c : Case := {}
+
+def kindOf (s : String) : Option File :=
+  match s with
+  | "mess" => some .mess | "intd" => some .intd | "todo" => some .todo | "info" => some .info
+  | "local" => some .loc | "remote" => some .rem | "bounce" => some .bounce
+  | _ => none
+
+def kindName : File → String
+  | .mess => "mess" | .intd => "intd" | .todo => "todo" | .info => "info" | .loc => "local" | .rem => "remote" | .bounce => "bounce"
+
+/-- ("mess", 212) from "mess/5/212"; pid/ paths give none -/
+def parsePath (p : String) : Option (File × Nat) :=
+  match p.splitOn "/" with
+  | k :: rest => match kindOf k, rest.getLast?.bind (·.toNat?) with
+    | some f, some n => some (f, n)
+    | _, _ => none
+  | _ => none
+
+def isPid (p : String) : Bool := p.startsWith "pid/"
+
+def canonical (f : File) (n : Nat) : String :=
+  match f with
+  | .mess | .info | .loc | .rem => s!"{kindName f}/{n % Nq.Gen.auto_split}/{n}"
+  | _ => s!"{kindName f}/{n}"
+
+def Case.flags (c : Case) (n : Nat) : Flags :=
+  let has (f : File) := c.ents.any (fun e => e.kind == f && e.n == n)
+  { mess := has .mess, intd := has .intd, todo := has .todo, info := has .info, loc := has .loc, rem := has .rem, bounce := has .bounce }
+
+def Case.atimeOf (c : Case) (ino : Nat) : Nat := ((c.atime.find? (·.1 == ino)).map (·.2)).getD 0
+
+def kvNat (toks : List String) (key : String) : Option Nat :=
+  toks.findSome? (fun t => if t.startsWith (key ++ "=") then (t.drop (key.length + 1)).toString.toNat? else none)
+
+def procNum (p : String) : Nat := ((p.drop 1).toString.toNat?).getD 99
+
+def oracle (d : D) (why : String) (detail : String) : IO D := do
+  if d.c.oracleHit then return d
+  IO.println s!"ORACLE {d.c.hdr} why={why} {detail}"
+  return { d with st := { d.st with oracle := d.st.oracle + 1 }, c := { d.c with oracleHit := true } }
+
+def disagree (d : D) (what : String) : IO D := do
+  if d.c.st.isNone then return d
+  IO.println s!"DISAGREE {d.c.hdr} {what}"
+  return { d with st := { d.st with disagree := d.st.disagree + 1 }, c := { d.c with st := none } }
+
+def feed (d : D) (ev : Ev) (what : String) : IO D := do
+  match d.c.st with
+  | none => return d
+  | some s =>
+    match accept s ev with
+    | some s' => return { d with c := { d.c with st := some s', nev := d.c.nev + 1 }, st := d.st.bump ("ev_" ++ what) }
+    | none => disagree d s!"event#{d.c.nev + 1} rejected: {what} {repr ev} mode={repr s.mode} know={repr s.k}"
+
+/-- the daemon leaves todo_do without finishing when its next call is about something else -/
+def abortTodoIfLeaving (d : D) (about : Option Nat) : IO D := do
+  match d.c.st with
+  | some s => match s.mode with
+    | .inTodo m _ => if about == some m then return d else feed d .dAbortTodo "dAbortTodo"
+    | _ => return d
+  | none => return d
+
+/-- state-shape oracles after a mutating call on a file of message n -/
+def checkMove (d : D) (pre post : Flags) (n : Nat) (what : String) : IO D := do
+  let mut d := d
+  if !post.documented then
+    d ← oracle d "undocumented_state" s!"n={n} after={what} flags={repr post}"
+  else if !allowedMove pre.cls post.cls then
+    d ← oracle d "undocumented_move" s!"n={n} by={what} from=S{pre.cls} to=S{post.cls}"
+  return d
+
+def addEnt (c : Case) (f : File) (n : Nat) (path : String) (ino : Nat) : Case :=
+  if c.ents.any (fun e => e.path == path) then c else { c with ents := ⟨f, n, path, ino⟩ :: c.ents }
+def delEnt (c : Case) (path : String) : Case := { c with ents := c.ents.filter (fun e => e.path != path) }
+
+def mutexCheck (d : D) (pn : Nat) (what : String) : IO D := do
+  if (pn == 0 || pn == 5 || pn == 1) then
+    let holder := d.c.lock
+    let ok := match pn with
+      | 1 => true            -- qmail-clean acts on requests of whoever started it; its requests are checked at the daemon
+      | _ => holder == some pn
+    if !ok then return (← oracle d "queue_changed_by_a_qmail-send_that_does_not_hold_the_lock" s!"proc=P{pn} call={what}")
+  return d
+
+def compareDump (d : D) : IO D := do
+  if !d.c.dumpPending then return d
+  let mine := (d.c.ents.map (fun e => (e.path, e.ino))) ++ d.c.pids
+  let theirs := d.c.dump
+  let missing := theirs.filter (fun x => !mine.contains x)
+  let extra := mine.filter (fun x => !theirs.contains x)
+  let d := { d with c := { d.c with dump := [], dumpPending := false } }
+  if missing.isEmpty && extra.isEmpty then return d
+  disagree d s!"directory reconstruction differs from qsim's dump: only_in_dump={missing} only_in_reconstruction={extra}"
+
+def handleT (d : D) (p : String) (toks : List String) : IO D := do
+  let pn := procNum p
+  let i := d.c.inc * 8 + pn
+  let isInj := pn ≥ 2 && pn ≤ 4
+  if d.c.p5daemon then return d
+  match toks with
+  | ["alarm", dd] =>
+    if isInj then
+      let d := { d with c := { d.c with live := i :: d.c.live } }
+      feed d (.iStart i (dd.toNat?.getD 0)) "iStart"
+    else return d
+  | "exit" :: _ | "CRASH" :: _ | "KILLED" :: _ =>
+    if isInj then
+      let d := { d with c := { d.c with live := d.c.live.filter (· != i) } }
+      feed d (.iDie i) "iDie"
+    else if d.c.lock == some pn then
+      let d := { d with c := { d.c with lock := none } }
+      if pn == 0 then feed d .dDie "dDie" else return d
+    else return d
+  | ["sleep", nn] =>
+    if pn == 0 then
+      let t := d.c.clock + nn.toNat?.getD 0
+      feed { d with c := { d.c with clock := t } } (.tick t) "tick"
+    else return d
+  | _ :: "select" :: rest =>
+    if pn != 0 then return d else
+    let d ← abortTodoIfLeaving d none
+    match kvNat rest "clock" with
+    | some t => feed { d with c := { d.c with clock := t } } (.tick t) "tick"
+    | none => return d
+  | _ :: fl :: _ :: "->" :: r :: _ =>
+    if fl == "flock" || fl == "flock_nb" then
+      if pn != 0 && pn != 5 then return d else
+      if r == "0" then
+        if d.c.lock.isNone then
+          if pn == 5 then
+            -- the second instance is legitimately the only daemon (the first died before taking the lock); its qmail-clean is a
+            -- stand-in, so the rest of this case is not a faithful run of the system: not judged
+            return { d with c := { d.c with lock := some 5, p5daemon := true, st := none, oracleHit := true, dumpPending := false },
+                            st := d.st.bump "skipped_second_instance_is_the_daemon" }
+          else feed { d with c := { d.c with lock := some pn } } .dStart "dStart"
+        else
+          let d ← oracle d "second_qmail-send_got_the_lock_while_another_holds_it" s!"proc={p}"
+          feed d .dStart "dStart"
+      else if d.c.lock.isSome then feed d .dRefused "dRefused" else return d      -- a failure while nobody holds the lock is an injected fault
+    else handleCall d p pn i isInj toks
+  | _ => handleCall d p pn i isInj toks
+where
+  handleCall (d : D) (p : String) (pn i : Nat) (isInj : Bool) (toks : List String) : IO D := do
+    match toks with
+    | _ :: "write_pipe" :: "5" :: rest =>
+      if pn != 0 then return d else
+      match rest.findSome? (fun t => if t.startsWith "data=" then unhex (t.drop 5).toString else none) with
+      | some bs =>
+        let txt := String.ofList (bs.filter (· != 0) |>.map (fun b => Char.ofNat b.toNat))
+        let isTodo := txt.startsWith "todo/"
+        match (txt.drop 5).toString.toNat? with
+        | some n =>
+          if txt.startsWith "todo/" || txt.startsWith "foop/" then
+            let d ← abortTodoIfLeaving d (some n)
+            feed d (.dReq isTodo n) (if isTodo then "dReqTodo" else "dReqFoop")
+          else disagree d s!"unknown request to qmail-clean: {txt}"
+        | none => disagree d s!"unparseable request to qmail-clean: {txt}"
+      | none => return d
+    | _ :: "read" :: "6" :: "->" :: r :: rest =>
+      if pn != 0 then return d else
+      if r == "1" then feed d (.cDone (rest.contains "data=2b")) "cDone" else return d
+    | _ :: "rename" :: a :: b :: _ =>
+      if (parsePath a).isSome || (parsePath b).isSome || isPid a || isPid b then disagree d s!"unmodelled call rename {a} {b} by {p}" else return d
+    | _ :: "stat" :: path :: "->" :: r :: rest =>
+      if pn != 0 then return d else
+      match parsePath path with
+      | some (f, n) =>
+        if r == "0" then
+          let d ← abortTodoIfLeaving d (some n)
+          feed d (.dObs n f true) "dObs"
+        else if rest.head? == some "e2" then
+          let d ← abortTodoIfLeaving d (some n)
+          feed d (.dObs n f false) "dObs"
+        else return d
+      | none => return d
+    | _ :: "open_read" :: path :: "->" :: r :: _ =>
+      if pn != 0 || r == "-1" then return d else
+      match parsePath path with
+      | some (.todo, n) =>
+        let d ← abortTodoIfLeaving d none
+        feed d (.dOpenTodo n) "dOpenTodo"
+      | _ => return d
+    | _ :: op :: path :: "->" :: r :: rest =>
+      if op == "open_excl" || op == "open_append" || op == "open_trunc" || op == "open_write" then
+        if r == "-1" then return d else
+        let ino := (kvNat rest "ino").getD 0
+        if isPid path then
+          if isInj && op == "open_excl" then
+            let c := { d.c with pids := (path, ino) :: d.c.pids, atime := (ino, d.c.clock) :: d.c.atime.filter (·.1 != ino) }
+            feed { d with c := c } (.iOpenPid i ino) "iOpenPid"
+          else return d
+        else match parsePath path with
+          | some (f, n) =>
+            let existed := d.c.ents.any (fun e => e.path == path)
+            if existed then return d else      -- open of an existing file changes no name (markdone, appending to bounce)
+            if op == "open_write" then disagree d s!"open_write created {path}?" else
+            let pre := d.c.flags n
+            let mut d := { d with c := addEnt d.c f n path ino }
+            d ← mutexCheck d pn s!"{op} {path}"
+            d ← checkMove d pre (d.c.flags n) n s!"{p}:{op}:{path}"
+            if path != canonical f n then d ← oracle d "file_not_under_its_number" s!"path={path} expected={canonical f n}"
+            if isInj then
+              if f == .intd then feed d (.iCreatIntd i n) "iCreatIntd"
+              else disagree d s!"qmail-queue created {path}"
+            else if pn == 0 then
+              d ← abortTodoIfLeaving d (some n)
+              feed d (.dCreat n f) ("dCreat_" ++ kindName f)
+            else disagree d s!"{p} created {path}"
+          | none => return d
+      else if op == "unlink" then
+        if r == "0" then
+          if isPid path then
+            let ino := ((d.c.pids.find? (·.1 == path)).map (·.2)).getD 0
+            let d := { d with c := { d.c with pids := d.c.pids.filter (·.1 != path) } }
+            if isInj then feed d (.iUnlinkPid i) "iUnlinkPid"
+            else if pn == 1 then
+              -- the pid file must be more than 36 hours old
+              let d ← if d.c.clock ≤ d.c.atimeOf ino + 129600 then oracle d "pid_file_removed_before_36_hours" s!"path={path}" else pure d
+              feed d (.cUnlinkPid ino) "cUnlinkPid"
+            else disagree d s!"{p} unlinked {path}"
+          else match parsePath path with
+            | some (f, n) =>
+              let pre := d.c.flags n
+              let ent := d.c.ents.find? (fun e => e.path == path)
+              let mut d := { d with c := delEnt d.c path }
+              let post := d.c.flags n
+              d ← mutexCheck d pn s!"unlink {path}"
+              d ← checkMove d pre post n s!"{p}:unlink:{path}"
+              -- removal order
+              if f == .bounce && (pre.loc || pre.rem) then
+                d ← oracle d "bounce_record_removed_before_recipient_lists" s!"n={n}"
+              if f == .info && !pre.todo && (pre.loc || pre.rem || pre.bounce) then
+                d ← oracle d "info_removed_before_recipient_lists_and_bounce_record" s!"n={n}"
+              if f == .mess && (post.intd || post.todo || post.info || post.loc || post.rem || post.bounce) then
+                d ← oracle d "message_body_removed_before_the_rest" s!"n={n}"
+              if pn == 0 && f == .info && !pre.todo then d := { d with c := { d.c with elim := n :: d.c.elim } }
+              -- stale collection
+              if pn == 1 && (f == .mess || (f == .intd && !pre.todo)) then    -- intd/n with todo/n present is the end of preprocessing
+                let messIno := ((d.c.ents.find? (fun e => e.kind == .mess && e.n == n)).map (·.ino)).getD ((ent.map (·.ino)).getD n)
+                let atm := d.c.atimeOf (if f == .mess then (ent.map (·.ino)).getD n else messIno)
+                let elimOk := d.c.elim.contains n
+                let staleOk := d.c.clock > atm + 129600 && !pre.info && !pre.todo
+                if !(elimOk || staleOk) then
+                  d ← oracle d "collected_before_36_hours_or_with_info_or_todo_present" s!"n={n} file={kindName f} clock={d.c.clock} atime={atm} info={pre.info} todo={pre.todo}"
+                if d.c.owners.any (fun (j, m) => m == n && d.c.live.contains j) then
+                  d ← oracle d "files_of_a_running_qmail-queue_collected" s!"n={n} file={kindName f}"
+              if f == .mess then d := { d with c := { d.c with elim := d.c.elim.filter (· != n), owners := d.c.owners.filter (·.2 != n) } }
+              if isInj then
+                if f == .intd then feed d (.iUnIntd i n) "iUnIntd"
+                else if f == .mess then feed d (.iUnMess i n) "iUnMess"
+                else disagree d s!"qmail-queue unlinked {path}"
+              else if pn == 0 then
+                d ← abortTodoIfLeaving d (some n)
+                feed d (.dUnlink n f) ("dUnlink_" ++ kindName f)
+              else if pn == 1 then feed d (.cUnlink n f true) ("cUnlink_" ++ kindName f)
+              else disagree d s!"{p} unlinked {path}"
+            | none => return d
+        else if rest.head? == some "e2" then
+          match parsePath path with
+          | some (f, n) =>
+            if pn == 0 then
+              let d ← abortTodoIfLeaving d (some n)
+              feed d (.dObs n f false) "dObs"
+            else if pn == 1 then feed d (.cUnlink n f false) ("cUnlinkENOENT_" ++ kindName f)
+            else return d
+          | none => return d
+        else return d
+      else return d
+    | _ :: "link" :: a :: b :: "->" :: r :: _ =>
+      if r != "0" then return d else
+      match parsePath b with
+      | some (f, n) =>
+        let pre := d.c.flags n
+        let srcIno : Nat :=
+          if isPid a then ((d.c.pids.find? (·.1 == a)).map (·.2)).getD 0
+          else ((d.c.ents.find? (fun e => e.path == a)).map (·.ino)).getD 0
+        let mut d := { d with c := addEnt d.c f n b srcIno }
+        d ← mutexCheck d pn s!"link {a} {b}"
+        d ← checkMove d pre (d.c.flags n) n s!"{p}:link:{b}"
+        if b != canonical f n then d ← oracle d "file_not_under_its_number" s!"path={b} expected={canonical f n}"
+        if f == .mess then
+          if srcIno != n then d ← oracle d "message_file_name_differs_from_inode" s!"path={b} inode={srcIno}"
+          if pre.cls != 1 then d ← oracle d "number_taken_while_in_use" s!"n={n} state=S{pre.cls}"
+          d := { d with c := { d.c with owners := (i, n) :: d.c.owners } }
+          if isInj then feed d (.iLinkMess i n) "iLinkMess" else disagree d s!"{p} linked {b}"
+        else if f == .todo then
+          if isInj then feed d (.iLinkTodo i n) "iLinkTodo" else disagree d s!"{p} linked {b}"
+        else disagree d s!"{p} linked {b}"
+      | none => return d
+    | _ => return d
+
+def handle (d : D) (line : String) : IO D := do
+  let toks := fields line
+  match toks with
+  | "CASE" :: rest =>
+    let hl := " ".intercalate rest
+    let h := hashBytes hl.toUTF8.toList
+    let fresh := !d.st.seen.contains h
+    let mut st : Stats := { d.st with cases := d.st.cases + 1, seen := d.st.seen.insert h, nontrivial := d.st.nontrivial + (if fresh then 1 else 0) }
+    if st.samples < 3 then
+      IO.println s!"SAMPLE {hl}"
+      st := { st with samples := st.samples + 1 }
+    return { st := st, c := { hdr := hl, clock := 1000000, st := (accept {} (.tick 1000000)) } }
+  | "X" :: "pre" :: rest =>
+    -- leftovers in the queue at start: they enter the model as flags (no history), the concrete view as entries
+    let ino := (kvNat rest "ino").getD 0
+    let atm := (kvNat rest "atime").getD 0
+    let c := { d.c with atime := (ino, atm) :: d.c.atime.filter (·.1 != ino) }
+    match rest with
+    | "pid" :: _ =>
+      let path := (rest.findSome? (fun t => if t.startsWith "path=" then some (t.drop 5).toString else none)).getD "?"
+      let st' := c.st.map (fun s => { s with pidf := upd s.pidf ino true, atime := upd s.atime ino atm })
+      return { d with c := { c with pids := (path, ino) :: c.pids, st := st' } }
+    | _ =>
+      let n := (kvNat rest "n").getD 0
+      match (rest.findSome? (fun t => if t.startsWith "file=" then kindOf (t.drop 5).toString else none)) with
+      | some f =>
+        let st' := c.st.map (fun s =>
+          let s := s.setF n f true
+          if f == .mess then { s with messIno := upd s.messIno n ino, atime := upd s.atime n atm } else s)
+        return { d with c := { (addEnt c f n (canonical f n) ino) with st := st' } }
+      | none => return d
+  | "X" :: "start" :: rest =>
+    let d ← compareDump d
+    return { d with c := { d.c with inc := (kvNat rest "incarnation").getD 1 } }
+  | "X" :: "crash-applied" :: _ =>
+    let d := { d with c := { d.c with live := [], lock := none, elim := [] } }
+    feed d .crash "crash"
+  | "X" :: "end" :: _ => if d.c.p5daemon then return d else return { d with c := { d.c with dumpPending := true, dump := [] } }
+  | "X" :: "budget-abort" :: _ => return { d with st := d.st.bump "budget_abort" }
+  | "X" :: "second-instance-abort" :: _ => return { d with st := d.st.bump "second_instance_abort" }
+  | "X" :: "horizon-abort" :: _ => return { d with st := d.st.bump "horizon_abort" }
+  | "D" :: _ :: path :: rest =>
+    return { d with c := { d.c with dump := (path, (kvNat rest "ino").getD 0) :: d.c.dump } }
+  | "T" :: p :: rest =>
+    if rest.contains "DEADLOCK" then disagree d s!"deadlock reported by qsim: {line.trimAscii.toString}" else
+    handleT d p rest
+  | "END" :: _ =>
+    if d.c.p5daemon then return d else
+    let d ← compareDump d
+    -- final state: every message in a documented state (whole directory)
+    let ns := (d.c.ents.map (·.n)).eraseDups
+    let mut d := d
+    for n in ns do
+      if !(d.c.flags n).documented then d ← oracle d "undocumented_state_at_end" s!"n={n} flags={repr (d.c.flags n)}"
+    return d
+  | _ => return d
+
+partial def loop2 (h : IO.FS.Stream) (d : D) : IO D := do
+  let line ← h.getLine
+  if line.isEmpty then return d
+  let d' ← handle d line
+  loop2 h d'
+
+def main : IO Unit := do
+  let stdin ← IO.getStdin
+  let d ← loop2 stdin {}
+  IO.println s!"STATS {d.st.json}"
